@@ -14,3 +14,4 @@ import NostrRelay.Props.C11
 import NostrRelay.Props.KVScan
 import NostrRelay.Props.C09
 import NostrRelay.Props.C08
+import NostrRelay.Props.C17
